@@ -13,8 +13,9 @@
      none           = not over          (`(None, None)`)
      some none      = over, drawn       (`(None, FLATS)`)
      some (some c)  = over, `c` won     (`(c, ROAD|FLATS)`)
-  The model is parametric in it (Model/Winner.lean is property C02's; every theorem of C11
-  holds for any adjudication function; the driver instantiates it).
+  The model is parametric in it (every theorem of C11 holds for any adjudication function);
+  `winnerOutcome` below is the instance given by the model of `Position.winner()` of property
+  C02 (`Impl.winner`), which is what the driver and the `…_winner` corollaries use.
 
   The `while True` loop takes fuel; `playOneGame` supplies `ply_limit + 2`, which suffices
   (`Tak.C11.C11_terminates`).  The four `log.X.append(..)` of one iteration are `push`
@@ -22,9 +23,18 @@
 -/
 import TakVerif.Model.Core
 import TakVerif.Model.Move
+import TakVerif.Model.Winner
 
 namespace Tak
 namespace SelfPlay
+
+/-- `color, over = position.winner()` read the way the loop reads it (`over is not None`
+    = the game is over, `color` = the winner or None): the adjudication model of property C02
+    (`Impl.winner`, Model/Winner.lean) as the `outcome` argument of `playFrom`. -/
+def winnerOutcome (p : Pos) : Option (Option Color) :=
+  match Impl.winner p with
+  | (color, some _) => some color
+  | (_, none) => none
 
 /-- `Transcript` (the `stats` field is not part of the property and is not modelled) -/
 structure Transcript where
